@@ -260,7 +260,7 @@ fn break_tags(rng: &mut Rng, p: &mut Vec<u8>) -> &'static str {
     }
 }
 
-fn gen_profile(rng: &mut Rng, thorough: bool, want_bad_tags: bool) -> (Vec<u8>, String) {
+pub(crate) fn gen_profile(rng: &mut Rng, thorough: bool, want_bad_tags: bool) -> (Vec<u8>, String) {
     if want_bad_tags {
         let nt = rng.urange(1, 30);
         let mut p = random_structured_profile(rng, nt);
